@@ -1,6 +1,7 @@
 package props
 
 import (
+	"strings"
 	"os"
 	"github.com/ethereum/go-ethereum/common"
 	"fmt"
@@ -169,6 +170,10 @@ func TestC10_Injection(t *testing.T) {
 		if len(foreign) > 0 {
 			classes = append(classes, "foreign", "foreign", "foreign")
 		}
+		// a correctly signed transaction of a member around a payload the application may refuse
+		// (structurally or semantically invalid): if it is answered with the error code it must
+		// have no effect either
+		classes = append(classes, "member-payload", "member-payload", "member-payload")
 		class := rapid.SampledFrom(classes).Draw(rt, "class")
 		var tx []byte
 		var fsender = -1
@@ -196,6 +201,19 @@ func TestC10_Injection(t *testing.T) {
 		case "replay":
 			tx = rapid.SampledFrom(executed).Draw(rt, "rp")
 			validSig = true
+		case "member-payload":
+			// bring the generator's model to the injection point so that payloads aim at the live eons/configs
+			saved, savedFocus := c.M, c.Focus
+			c.M = pre.M
+			if len(pre.M.DKGs) > 0 && rapid.Bool().Draw(rt, "dkgFocus") {
+				c.Focus = "dkg"
+			}
+			ms := c.genSender(rt)
+			msg, _ := c.genMessage(rt, ms)
+			c.M, c.Focus = saved, savedFocus
+			fsender = ms
+			tx = uni.MakeTx(ms, apphist.ChainID, injNonce, msg)
+			validSig = true
 		case "foreign":
 			fsender = rapid.SampledFrom(foreign).Draw(rt, "fs")
 			msg, _ := c.genMessage(rt, fsender)
@@ -208,6 +226,9 @@ func TestC10_Injection(t *testing.T) {
 			validSig = true
 		}
 		mode := rapid.SampledFrom([]string{"deliver", "check", "both"}).Draw(rt, "mode")
+		if class == "member-payload" {
+			mode = "deliver"
+		}
 		var inj []call
 		if mode != "deliver" {
 			inj = append(inj, call{Kind: 'C', Tx: tx, Tag: "INJ"})
@@ -248,6 +269,15 @@ func TestC10_Injection(t *testing.T) {
 		if wrapBlock {
 			injAt = pos + 1
 		}
+		if class == "member-payload" {
+			var resp abcitypes.ResponseDeliverTx
+			_ = resp.Unmarshal([]byte(outB[injAt].Data))
+			if resp.Code != 1 {
+				// executed (or acknowledged as seen): not a refused transaction, nothing to judge
+				rec.Case(fmt.Sprintf("%s|pos=%d|member-payload-not-refused|%x", c.DescString(), pos, tx), false, "class:member-payload-not-refused")
+				return
+			}
+		}
 		for k, cl := range inj {
 			r := outB[injAt+k]
 			switch cl.Kind {
@@ -260,7 +290,7 @@ func TestC10_Injection(t *testing.T) {
 			case 'D':
 				var resp abcitypes.ResponseDeliverTx
 				_ = resp.Unmarshal([]byte(r.Data))
-				if class != "foreign" && resp.Code == 0 {
+				if class != "foreign" && class != "member-payload" && resp.Code == 0 {
 					fail("refused-tx-code-zero", "DeliverTx answered code 0 to a %s transaction\nhistory: %s", class, descCalls(callsB))
 				}
 				if len(resp.Events) > 0 {
@@ -288,7 +318,7 @@ func TestC10_Injection(t *testing.T) {
 			}
 		}
 		// final state
-		if class == "foreign" && mode != "check" {
+		if (class == "foreign" || class == "member-payload") && mode != "check" {
 			a := uni.Addrs[fsender]
 			if m := appB.NonceTracker.RandomNonces[a]; m != nil {
 				delete(m, injNonce)
@@ -509,5 +539,69 @@ func FuzzC10_Tx(f *testing.F) {
 		if failSig != "" {
 			t.Fatalf("VERIF-FAIL signature=%s :: %s (tx %q)", failSig, failMsg, tx)
 		}
+	})
+}
+
+// TestC10_RefusedMemberPayload concentrates on transactions of keypers that
+// the application answers with the error code while a key generation is
+// running: whatever the payload, a refused transaction may only consume its
+// nonce.
+func TestC10_RefusedMemberPayload(t *testing.T) {
+	rec := recorder("C10")
+	rec.AddRule("(c) histories that first accept a configuration (a key generation is running), then 0-12 generated steps, then one correctly signed transaction of a keyper with a DKG-phase / vote / check-in payload from the shared generator (receivers, accused and accusers lists mixing valid, own, foreign and already used addresses); if the application answers it with the error code, the twin without it must end in the same state (apart from the consumed nonce) and the transaction must carry no events; non-trivial = the transaction was refused")
+	runRapid(t, N(500, 15000), func(rt *rapid.T) {
+		fail := func(sig, f string, a ...any) { fatalf(rt, sig, f, a...) }
+		g := genGenesis(rt)
+		c := NewChain(g, 1, fail)
+		c.PoolKeys = 6
+		var calls []call
+		// accept the first pooled configuration
+		c.refreshPool(rt)
+		calls = append(calls, call{Kind: 'B', H: 1})
+		for k := 0; k < g.Threshold; k++ {
+			tx := uni.MakeTx(g.Keypers[k], apphist.ChainID, c.nextNonce(), c.pool[0])
+			c.DeliverTx(tx, "accept")
+			calls = append(calls, call{Kind: 'D', Tx: tx, Tag: "accept"})
+		}
+		c.EndBlock()
+		calls = append(calls, call{Kind: 'E', H: 1})
+		c.Focus = "dkg"
+		for i := rapid.IntRange(0, 12).Draw(rt, "pre"); i > 0; i-- {
+			c.stepRecorded(rt, &calls)
+		}
+		if !c.Open {
+			calls = append(calls, call{Kind: 'B', H: c.Height + 1})
+			c.BeginBlock()
+		}
+		s := c.genSender(rt)
+		msg, tag := c.genMessage(rt, s)
+		const injNonce = uint64(1) << 41
+		tx := uni.MakeTx(s, apphist.ChainID, injNonce, msg)
+		end := call{Kind: 'E', H: c.Height}
+		callsA := append(append([]call{}, calls...), end)
+		callsB := append(append([]call{}, calls...), call{Kind: 'D', Tx: tx, Tag: "INJ:" + tag}, end)
+		appA, _ := runCalls(g, callsA, fail)
+		appB, outB := runCalls(g, callsB, fail)
+		var resp abcitypes.ResponseDeliverTx
+		_ = resp.Unmarshal([]byte(outB[len(outB)-2].Data))
+		desc := fmt.Sprintf("%s|INJ s%d %s", c.DescString(), s, tag)
+		if resp.Code != 1 {
+			rec.Case(desc, false, "member-dkg-payload-not-refused")
+			return
+		}
+		if len(resp.Events) > 0 {
+			fail("refused-tx-events", "transaction answered with the error code carries %d events\nhistory: %s", len(resp.Events), desc)
+		}
+		if m := appB.NonceTracker.RandomNonces[uni.Addrs[s]]; m != nil {
+			delete(m, injNonce)
+			if len(m) == 0 {
+				delete(appB.NonceTracker.RandomNonces, uni.Addrs[s])
+			}
+		}
+		if d := appDiff(appA, appB); d != "" {
+			fail("refused-tx-changes-state", "a transaction answered with the error code changed the state:\n%s\nhistory: %s", d, desc)
+		}
+		kind := strings.SplitN(tag, "(", 2)[0]
+		rec.Case(desc, true, "member-dkg-payload-refused:"+kind)
 	})
 }
